@@ -755,6 +755,15 @@ def rule_number_spellings(ctx):
     decide(ctx, "O2.10", "number spellings (concrete cells)", FIELDS + "IntegerFieldFormat.validated_value", cell, min_cells=len(NUMBER_SPELLINGS))
 
 
+def rule_separators_can_be_declared(ctx):
+    """O2.11: "a number written with the data format's decimal and thousands separators": every pair of distinct separators
+    can be declared together with every item delimiter, quote and escape character the csv dialect can represent - comma
+    separated data with the thousands separator ',' included, where such numbers are quoted (C11's consistency matrix)."""
+    from .c11 import rule_consistency
+
+    rule_consistency(ctx, "O2.11")
+
+
 def rule_range_membership(ctx):
     """O1.3 (shared with C01): Integer and Decimal fields hand the converted value to Range / DecimalRange.validate; that
     these accept exactly the values inside an item - the value itself, not a rounded one, and whatever was validated
@@ -767,5 +776,5 @@ def rule_range_membership(ctx):
 
 from .common import rule_module_state  # noqa: E402
 
-RULES = [rule_integer, rule_decimal, rule_number_spellings, rule_choice_constant_text, rule_datetime, rule_regex_pattern, rule_range_from_length,
+RULES = [rule_integer, rule_decimal, rule_number_spellings, rule_separators_can_be_declared, rule_choice_constant_text, rule_datetime, rule_regex_pattern, rule_range_from_length,
          rule_choice_constant_rules, rule_range_membership, rule_module_state]
